@@ -289,6 +289,15 @@ def main(argv):
                checker_cmd='cd lean && lake build Mp.Props.%s  (+ `lake env leanchecker Mp.Props.%s` in the thorough tier); axioms audited with #print axioms' % (prop, prop),
                trusted_base=TRUSTED_BASE + cfg.get('trusted_extra', []), theorems=theorems)
 
+    # the constants that are new in this source tree (empty on the tree the model was validated against): the generators size
+    # their inputs around them; recorded so that a run says what it was steered by
+    try:
+        pn = subprocess.run([mpv, 'novel'], env=go_env(), stdout=subprocess.PIPE, stderr=subprocess.PIPE, text=True, timeout=120)
+        nv = json.loads(pn.stdout or '{}')
+        cov['new_source_constants'] = {'integers': nv.get('Ints') or [], 'strings': nv.get('Strs') or []}
+    except Exception as e:  # never fatal
+        notes.append('new-constants scan failed: %s' % e)
+
     # 4. correspondence + oracles
     runner = cfg.get('runner')
     if runner:
